@@ -215,14 +215,22 @@ def r6_statistic_table(ctx):
     ok = all(got.get(k) == v for k, v in want_shift.items()) and got.get("med", "-median(values)") == "-median(values)"
     ctx.ob("C11.R6", EF, "Scale._shift_value", shift, "shift keywords map to -min / -fmean / -median of the values", ok, detail={"table": got}, stmt="shift table")
     sc = ctx.fn(EF, "Scale._scale_value")
-    want_scale = {"minmax": "max(values) - min(values)", "std": "stdev(values)", "iqr": "iqr(values)", "maxabs": "max(map(abs, map(shift.__add__, values)))"}
+    want_scale = {"minmax": "max(values) - min(values)", "std": "stdev(values)", "iqr": "iqr(values)", "maxabs": "max((abs(v + shift) for v in values))"}
     got = {}
     for x in walk_shallow(sc):
         if isinstance(x, ast.If) and isinstance(x.test, ast.Compare) and const_str(x.test.comparators[0]):
             den = [unparse(a.value) for a in x.body if isinstance(a, ast.Assign) and "values" in unparse(a.value)]
             if den:
                 got[const_str(x.test.comparators[0])] = den[0]
-    ctx.ob("C11.R6", EF, "Scale._scale_value", sc, "scale keywords map to max-min / stdev / iqr / max|x+shift| of the values (one argument each)", got == want_scale, detail={"table": got}, stmt="scale table")
+    got_n = dict(got)
+    if "maxabs" in got_n:  # the shifted magnitude may be written in several equivalent ways; normalise the generator variable
+        got_n["maxabs"] = alpha(got_n["maxabs"]) if "alpha" in globals() else got_n["maxabs"]
+        got_n["maxabs"] = {"max((abs(shift + v) for v in values))": want_scale["maxabs"], "max(map(lambda v: abs(v + shift), values))": want_scale["maxabs"]}.get(got["maxabs"], got["maxabs"])
+    ctx.ob("C11.R6", EF, "Scale._scale_value", sc, "scale keywords map to max-min / stdev / iqr / max|x+shift| of the values (one argument each)", got_n == want_scale, detail={"table": got}, stmt="scale table")
+    # the shifted value is formed with the + operator: a bound dunder (shift.__add__) does not coerce, (0).__add__(1.5) is NotImplemented
+    dunders = [x for x in ast.walk(sc) if isinstance(x, ast.Attribute) and x.attr in ("__add__", "__radd__", "__sub__", "__mul__", "__truediv__")]
+    ctx.ob("C11.R6", EF, "Scale._scale_value", dunders[0] if dunders else sc, "arithmetic on the window's values uses operators, not bound dunder methods (no numeric coercion: int shift + float value fails)",
+           not dunders, stmt="no dunder arithmetic")
     rets = [r.value for r in walk_shallow(sc) if isinstance(r, ast.Return)]
     okq = len(rets) == 1 and isinstance(rets[0], ast.IfExp) and isinstance(rets[0].orelse, ast.BinOp) and isinstance(rets[0].orelse.op, ast.Div) and \
         isinstance(rets[0].test, ast.Compare) and unparse(rets[0].test.left) == unparse(rets[0].orelse.right) and unparse(rets[0].body) == unparse(rets[0].orelse.left)
@@ -243,6 +251,24 @@ def r6_statistic_table(ctx):
            and [unparse(i) for i in x.value.generators[0].ifs] == [f"{unparse(x.value.generators[0].target)} is not None"]]
     ok = bool(assigned_value(gs, SH)) and bool(assigned_value(gs, SC)) and len(flt) == 1
     ctx.ob("C11.R6", EF, "Scale._get_shift_and_scale", gs, "shift and scale are computed from the same non-missing values, scale knowing the shift", ok, stmt="shift then scale")
+    # every scale computation is handed the shift computed just before it from the same values (reaching definitions)
+    from ..cfg import CFG
+    from ..dataflow import reaching_defs
+    g = CFG(gs)
+    rd = reaching_defs(g, [a.arg for a in gs.args.args])
+    k = 0
+    for nd in g.nodes:
+        if nd.kind != "stmt" or nd.ast is None or nd.id not in rd:
+            continue
+        for c in [c for c in walk_shallow(nd.ast) if isinstance(c, ast.Call) and unparse(c.func) == "self._scale_value" and len(c.args) == 2 and isinstance(c.args[1], ast.Name)]:
+            k += 1
+            V, S = unparse(c.args[0]), c.args[1].id
+            defs = rd[nd.id].get(S, frozenset())
+            vals = [g.nodes[d].ast for d in defs if isinstance(d, int) and d >= 0 and g.nodes[d].ast is not None]
+            okc = len(vals) == 1 and isinstance(vals[0], ast.Assign) and unparse(vals[0].value) == f"self._shift_value({V})"
+            ctx.ob("C11.R6", EF, "Scale._get_shift_and_scale", c, "the scale is computed with the shift of the same values (the only definition of the shift reaching the call)", okc,
+                   detail={"values": V, "shift definitions reaching": [unparse(v)[:80] for v in vals]})
+    ctx.floor("C11.R6", "scale computations in _get_shift_and_scale", k, 2)
 
 
 def r8_no_fitted_state(ctx):
@@ -346,6 +372,8 @@ def _chain(lp):
 
 
 CONTROLS = [
+    ("maxabs adds the shift through int.__add__", EF, M.replace_expr("Scale._scale_value", "max((abs(v + shift) for v in values))", "max(map(abs, map(shift.__add__, values)))"), "C11.R6"),
+    ("re-fit computes the scale before the shift", EF, M.swap_stmts("Scale._get_shift_and_scale", M.simple_has("shift = self._shift_value(not_nan_vals)"), M.simple_has("scale = self._scale_value(not_nan_vals, shift)")), "C11.R6"),
     ("Scale keeps the first fit", EF, M.replace_stmt("Scale.filter", M.simple_has("scaling_vals = list(map(self._get_shift_and_scale, cols))"),
                                                     "if getattr(self, '_fit', None) is None:\n    self._fit = list(map(self._get_shift_and_scale, cols))\nscaling_vals = self._fit"), "C11.R8"),
     ("iqr shortcut for two values", "coba/statistics.py", M.replace_expr("iqr", "len(values) <= 1", "len(values) <= 2"), "C11.R9"),
